@@ -32,6 +32,70 @@ DEBUG_FUNCS = ('dump_flows', 'dumptree', 'dump', 'print_dump', 'check_names', 'u
 CONSUMER_ORDERS = {'MultiName': 'MultiName.__init__ sorts the alternatives by position (C17-R2)'}
 
 
+def check_alternative_writers(repo, res, cg, facts):
+    """The alternatives of an instance attribute (MultiValue.values) are in source order because one recorder appends them while
+    it walks the assignment sites in visiting order (SourceScope.assigns over _attr_assigns).  Every other place that builds or
+    extends such a list (a constructor call, a call of a method that writes self.values, a direct write of .values) combines lists
+    of different classes or modules: its result is in source order only if it is sorted by position there."""
+    mv = facts.classes.get('MultiValue')
+    if mv is None:
+        raise AnalysisError('class MultiValue vanished')
+    recorders = {k for k, fi in facts.funcs.items() if any(
+        isinstance(n, ast.For) and '_attr_assigns' in unparse(n.iter) for n in ast.walk(fi.node))}
+    if not recorders:
+        raise AnalysisError('no function walks _attr_assigns: the recorder of instance-attribute assignments vanished')
+
+    def writes_values(fn):
+        for n in ast.walk(fn):
+            if isinstance(n, (ast.Assign, ast.AugAssign, ast.AnnAssign)):
+                for t in (n.targets if isinstance(n, ast.Assign) else [n.target]):
+                    if isinstance(t, ast.Attribute) and t.attr == 'values':
+                        return True
+            if isinstance(n, ast.Call) and isinstance(n.func, ast.Attribute) and n.func.attr in ('append', 'extend', 'insert') \
+                    and isinstance(n.func.value, ast.Attribute) and n.func.value.attr == 'values':
+                return True
+        return False
+    mutators = {fi.key for fi in facts.funcs.values() if fi.cls is not None and fi.cls.name == 'MultiValue' and writes_values(fi.node)}
+    callers = {}
+    for k, es in cg.edges.items():
+        for c, typed, n in es:
+            callers.setdefault(c, set()).add(k)
+    sites = []          # (function key, node, what)
+    for k, fi in facts.funcs.items():
+        in_mv = fi.cls is not None and fi.cls.name == 'MultiValue'
+        for c, typed, n in cg.edges.get(k, []):
+            if c in mutators and typed:
+                if c.endswith('.__init__'):
+                    sites.append((k, n, 'builds a MultiValue'))
+                elif not in_mv:
+                    sites.append((k, n, 'calls %s' % facts.funcs[c].qual))
+        if not in_mv and writes_values(fi.node) and any(
+                isinstance(a, ast.Attribute) and a.attr == 'values' and 'MultiValue' in repr(cg.typeof(a.value, cg.local_env(fi), fi))
+                for a in ast.walk(fi.node)):
+            sites.append((k, fi.node, 'writes .values of a MultiValue'))
+
+    def recorder_only(k, depth=0, seen=()):
+        if k in recorders:
+            return True
+        cs = callers.get(k, set()) - {k}
+        if not cs or depth > 3 or k in seen:
+            return False
+        return all(recorder_only(c, depth + 1, seen + (k,)) for c in cs)
+    n = 0
+    for k, node, what in sites:
+        n += 1
+        fi = facts.funcs[k]
+        arg = node.args[0] if isinstance(node, ast.Call) and node.args else None
+        is_sorted = isinstance(arg, ast.Call) and isinstance(arg.func, ast.Name) and arg.func.id == 'sorted'
+        ok = recorder_only(k) or is_sorted
+        res.check('C17-R2', '%s %s' % (fi.qual, what), ok, fi.rel, getattr(node, 'lineno', fi.node.lineno),
+                  '%s %s outside the recorder (%s), which lists the assignments of one attribute in visiting (= source) order: lists '
+                  'assembled here from several classes or modules come out in the order of the merge (base order, lookup order), not in '
+                  'source order, unless they are sorted by position' % (fi.qual, what, ', '.join(sorted(facts.funcs[r].qual for r in recorders))),
+                  sample='%s: alternatives are appended by the recorder in visiting order' % fi.qual)
+    res.count('alternative_writer_sites', n, floor=2)
+
+
 class FnAnalysis(object):
     def __init__(self, fn, unordered_fields, unordered_funcs):
         self.fn = fn
@@ -279,7 +343,7 @@ def run(repo, res):
     api_model.apply(res, api_model.declarations_model(repo), {'alts': 'C17-R2'}, 'supp/evaluator.py', 0)
     api_model.apply(res, api_model.location_model(repo), {'pairs': 'C17-R2'}, 'supp/assistant.py', 0)
 
-    pass
+    check_alternative_writers(repo, res, cg, facts)
     nso = 0
     for cls, r in sorted(R.statement_order_records(repo).items()):
         nso += r['n']
